@@ -1,0 +1,14 @@
+//go:build verif
+
+package index
+
+// VerifGate, when set, is called at the gate points of the index kv store
+// (verification harness only): "kvstore.load" after the persisted bucket was loaded and before
+// it is added to the bucket cache, "kvstore.miss" after a failed lookup and before the value is created.
+var VerifGate func(point string)
+
+func verifGate(point string) {
+	if fn := VerifGate; fn != nil {
+		fn(point)
+	}
+}
